@@ -28,7 +28,7 @@ pub enum OpKind {
     TimeUp,
     SetChannel(u8),
     QueryInternal,
-    /// GET /provision through the real listener; tick: 0 ancient, 1 the instant the query is created, 2 far future
+    /// GET /provision through the real listener; tick: 0 ancient, 1 the instant the query is created, 2 far future, 3 = 2^63, 4 = i128::MAX
     QueryHttp(u8),
 }
 
@@ -46,12 +46,12 @@ pub fn strategy() -> impl Strategy<Value = Case> {
     let op = prop_oneof![
         3 => Just(OpKind::Report(Sub::Redirector)), 4 => Just(OpKind::Report(Sub::KeyLatch)), 3 => Just(OpKind::Report(Sub::Listener)),
         2 => Just(OpKind::ResetKeyLatch), 2 => Just(OpKind::TimeUp), 2 => (0u8..4).prop_map(OpKind::SetChannel),
-        4 => Just(OpKind::QueryInternal), 3 => (0u8..3).prop_map(OpKind::QueryHttp),
+        4 => Just(OpKind::QueryInternal), 3 => (0u8..5).prop_map(OpKind::QueryHttp),
     ];
     (prop::collection::vec(op, 2..9), prop::collection::vec(any::<u8>(), 0..120), prop::bool::weighted(0.35)).prop_map(|(ops, schedule, sequential)| Case { ops, schedule, sequential })
 }
 
-pub const RULE: &str = "generator: 2-8 operations on fresh shared state - readiness reports (redirector_ready, key_latched, listener_started), key_latch_ready_state_reset, provision_timeup, update_current_secure_channel_state(disabled | Unknown | a latched state), queries (get_provision_state_internal directly; GET /provision through the real listener with x-ms-azure-time_tick = an ancient instant, the instant the query is created, or a far-future instant) - run either strictly one after the other (35%) or under a generated schedule of 0-119 steps by the owned-schedule executor. oracle: sequential histories - the reference flag/tick model (DESIGN.md A.4) exactly: finished, and the error text names exactly the subsystems not ready, in order, empty iff all are; scheduled histories - possibility sets from the executor's knowledge of which operations had completed before a query started (definitely) and which had started before it ended (possibly): finished only if all three reports or the deadline or a latched channel state possibly happened (far-future tick: only if latched), a subsystem is omitted from the error text only if a report of it possibly happened and named only if it was not definitely ready. A watcher thread follows the directory with inotify (the entry status.tag may only ever receive MOVED_TO events: CREATE / MODIFY / CLOSE_WRITE under the final name mean it was written in place) and re-reads status.tag continuously: the same inode never shows two different contents (replace-by-rename), every content is empty or complete CRLF-terminated lines with the three known prefixes. non-trivial: >= 2 reports overlap a query or a reset overlaps a report (scheduled), or a sequential history in which finished flips; distinct by hash of the case.";
+pub const RULE: &str = "generator: 2-8 operations on fresh shared state - readiness reports (redirector_ready, key_latched, listener_started), key_latch_ready_state_reset, provision_timeup, update_current_secure_channel_state(disabled | Unknown | a latched state), queries (get_provision_state_internal directly; GET /provision through the real listener with x-ms-azure-time_tick = an ancient instant, the instant the query is created, a far-future instant, 2^63 or the largest 128-bit integer) - run either strictly one after the other (35%) or under a generated schedule of 0-119 steps by the owned-schedule executor. oracle: sequential histories - the reference flag/tick model (DESIGN.md A.4) exactly: finished, and the error text names exactly the subsystems not ready, in order, empty iff all are; scheduled histories - possibility sets from the executor's knowledge of which operations had completed before a query started (definitely) and which had started before it ended (possibly): finished only if all three reports or the deadline or a latched channel state possibly happened (far-future tick: only if latched), a subsystem is omitted from the error text only if a report of it possibly happened and named only if it was not definitely ready. A watcher thread follows the directory with inotify (the entry status.tag may only ever receive MOVED_TO events: CREATE / MODIFY / CLOSE_WRITE under the final name mean it was written in place) and re-reads status.tag continuously: the same inode never shows two different contents (replace-by-rename), every content is empty or complete CRLF-terminated lines with the three known prefixes. non-trivial: >= 2 reports overlap a query or a reset overlaps a report (scheduled), or a sequential history in which finished flips; distinct by hash of the case.";
 
 #[derive(Clone, Debug)]
 pub enum Out {
@@ -87,10 +87,13 @@ fn named(error: &str) -> Result<BTreeSet<Sub>, String> {
 }
 
 async fn http_query(kind: u8) -> Out {
-    let tick: i128 = match kind % 3 {
+    let tick: i128 = match kind % 5 {
         0 => 1,
         1 => sched::now_nanos(),
-        _ => sched::now_nanos() + 3_600_000_000_000i128 * 24,
+        2 => sched::now_nanos() + 3_600_000_000_000i128 * 24,
+        // instants that do not fit 63 bits: still well-formed integers, still "later than anything that happened"
+        3 => 1i128 << 63,
+        _ => i128::MAX,
     };
     let r: Result<Out, String> = async {
         let mut s = tokio::net::TcpStream::connect("127.0.0.1:3080").await.map_err(|e| e.to_string())?;
@@ -361,7 +364,7 @@ pub fn eval(case: &Case, stats: &mut Stats) -> Outcome {
                     if *status != 200 || finished.is_none() {
                         return Outcome::fail("provision:query-not-answered", format!("op {}: status {}", q, status));
                     }
-                    (finished.unwrap(), error.clone(), matches!(o, OpKind::QueryHttp(k) if k % 3 == 2))
+                    (finished.unwrap(), error.clone(), matches!(o, OpKind::QueryHttp(k) if k % 5 >= 2))
                 }
                 other => return Outcome::fail("provision:query-failed", format!("op {}: {:?}", q, other)),
             };
